@@ -144,7 +144,7 @@ pub fn sync_calls(hist: &History) -> BTreeMap<u16, Vec<SyncCall<'_>>> {
                         push(o.ch_id, Want::SelectOk)
                     }
                 }
-                Op::Get { .. } => push(o.ch_id, Want::Get),
+                Op::Get { .. } | Op::GetKeep { .. } => push(o.ch_id, Want::Get),
                 Op::Consume { .. } => {
                     push(o.ch_id, Want::ConsumeOk);
                     if let OpResult::Consumer { .. } = &o.result {
